@@ -20,7 +20,9 @@
 // which no declaration covers).
 //
 // Unit Live (live_test.go): StartBatching against a fake InfluxDB; every observed live query
-// must be exactly the query BatchQueries returns for the same tick.
+// must be exactly the query BatchQueries returns for the same tick. Unit LiveStall: the same
+// with one answer of the fake InfluxDB held back for seconds; the tick of every later query
+// is bounded from below by the instant an earlier answer was handed back.
 package c16
 
 import (
@@ -130,7 +132,7 @@ type Case struct {
 }
 
 const rule = "rapid: InfluxQL SELECT (fields x sources x WHERE tree depth<=4 over AND/OR/parens, tag/field/arith/regex comparisons, user time predicates) x " +
-	"period/every|cron/offset/align/groupBy/fill/alignGroup x declared dbrps x span [start,stop] with generated phase; " +
+	"period/every|cron/offset/align/groupBy/fill/alignGroup x declared dbrps and FROM clause (declared pair | undeclared pair | declared database, other or omitted retention policy | no database) x span [start,stop] with generated phase; " +
 	"non-trivial = the WHERE tree has an OR at its top level or a user time predicate (and the task issues >= 1 query); distinct by case hash"
 
 // ------------------------------------------------------------------ reference schedule
